@@ -1,6 +1,6 @@
 From Coq Require Import ZArith List.
 From V Require Import Base.Wire.
-From V Require Check.C12 Check.C10 Check.C13 Check.C20 Check.C01 Check.C19 Check.C06 Check.C14 Check.Attack Check.C05 Check.C18.
+From V Require Check.C12 Check.C10 Check.C13 Check.C20 Check.C01 Check.C19 Check.C06 Check.C14 Check.Attack Check.C05 Check.C18 Check.C17.
 Import ListNotations.
 Open Scope Z_scope.
 
@@ -16,6 +16,7 @@ Definition checker (prop : Z) : option (rd verdict) :=
   else if prop =? 5 then Some C05.check_c05
   else if prop =? 15 then Some C05.check_c15
   else if prop =? 18 then Some C18.check
+  else if prop =? 17 then Some C17.check
   else if prop =? 2 then Some Attack.check_C02
   else if prop =? 3 then Some Attack.check_C03
   else if prop =? 4 then Some Attack.check_C04
